@@ -112,6 +112,13 @@ def verdict (_p : Profile) (S : Layout) (op : String) (a : List String) (ans : S
             if x = 0 && r ≠ 0 then some "0^n ≠ 0"
             else if x ≠ 0 && n = 0 && r ≠ 2 ^ D.f then some "x^0 ≠ 1"
             else if x ≠ 0 && n = 1 && r ≠ x * 2 ^ (D.f - S.f) then some "x^1 ≠ x"
+            else if x ≠ 0 && n ≤ -1 && n ≥ -64 &&
+                -- C12 "results that do not fit yield Err": |x^n| = 2^(fD·k) / |xd|^k ≥ 2 · 2^(integer bits) cannot be an Ok
+                decide ((2 : Int) ^ (D.f * n.natAbs) ≥ (((x * 2 ^ (D.f - S.f)).natAbs : Int)) ^ n.natAbs * 2 ^ (D.n - D.f + 1)) then
+              some "Ok for a result that does not fit"
+            else if x ≠ 0 && n ≥ 2 && n ≤ 64 &&
+                decide ((((x * 2 ^ (D.f - S.f)).natAbs : Int)) ^ n.toNat ≥ (2 : Int) ^ (D.f * n.toNat) * 2 ^ (D.n - D.f + 1)) then
+              some "Ok for a result that does not fit"
             else if x ≠ 0 && n ≥ 2 && n ≤ 64 then
               -- |r − x^n| ≤ (n+1) ulp · max(1,|x|)^(n−1), all as integers over 2^(fD·n)
               let xd := x * 2 ^ (D.f - S.f)
